@@ -27,14 +27,16 @@ def main():
             obs = mod.run(inp)
             orc = mod.oracle(inp, obs)
             term = mod.to_coq(inp, obs)
+            extra = mod.extra_terms(inp, obs) if hasattr(mod, "extra_terms") else []
             nt = bool(mod.nontrivial(inp, obs))
             key = mod.key(inp)
         except Exception as e:  # harness bug or an implementation failure outside the mapped ones
             obs = {"harness_exception": traceback.format_exc()[-1500:]}
             orc = {"why": "harness could not process the case: " + repr(e)[:300], "cls": "harness-exception"}
             term, nt, key = None, False, json.dumps(common.jsonable(inp), sort_keys=True, default=str)
+            extra = []
         cases.append({"input": common.jsonable(inp), "obs": common.jsonable(obs), "oracle": orc,
-                      "coq": term, "nontrivial": nt, "key": key})
+                      "coq": term, "coq_extra": extra, "nontrivial": nt, "key": key})
     res = {"cases": cases, "coq_header": mod.COQ_HEADER, "rule": mod.RULE,
            "distribution": dist.out(), "assumptions": getattr(mod, "ASSUMPTIONS", []),
            "trusted_base": getattr(mod, "TRUSTED", []),
